@@ -1351,17 +1351,20 @@ def selprep_sites(db):
     if H.counts.get('select', 0) < 4:
         raise AnalysisBroken('main: select() reached on %d explored wake-up values only' % H.counts.get('select', 0))
     for k, v in H.sites.items():
-        if k.startswith('main:zero-timeout') or k.startswith('main:positive-timeout') or k.startswith('main:wakeup-starts'):
+        if k.startswith('main:zero-timeout') or k.startswith('main:positive-timeout') or k.startswith('main:wakeup-starts') or k.startswith('main:recent-'):
             out[k] = v
-    for k in ('main:zero-timeout-iff-wakeup<=recent', 'main:positive-timeout-covers-the-distance-to-wakeup', 'main:wakeup-starts-at-recent+SLEEP_FOREVER'):
+    for k in ('main:zero-timeout-iff-wakeup<=recent', 'main:positive-timeout-covers-the-distance-to-wakeup', 'main:wakeup-starts-at-recent+SLEEP_FOREVER',
+              'main:recent-is-the-current-time-when-the-timeout-is-computed'):
         if k not in out:
             raise AnalysisBroken('main: %s not decided' % k)
     return out
 
 
 class TimeoutHooks(MainHooks):
-    """main() up to the first select(): tv.tv_sec as a function of the wake-up time"""
+    """main() through two rounds of the loop (the clock advances while select() sleeps): tv.tv_sec as a function of the
+    wake-up time and of the CURRENT time"""
     R = 1000
+    STEP = 500
     DELTAS = (-5, 0, 1, 10, 4000)
 
     def __init__(self, forever):
@@ -1375,11 +1378,20 @@ class TimeoutHooks(MainHooks):
         return True
 
     def site(self, inst, x, ok, detail, E, kill=True):
-        if inst.startswith('main:zero-timeout') or inst.startswith('main:positive-timeout') or inst.startswith('main:wakeup-starts'):
+        if inst.startswith('main:zero-timeout') or inst.startswith('main:positive-timeout') or inst.startswith('main:wakeup-starts') or inst.startswith('main:recent-'):
             super().site(inst, x, ok, detail, E, kill=False)
 
+    def clock(self, E):
+        return g1(E, '$clock', self.R)
+
     def prim_now(self, E, x, args):
-        return [Outcome(ret=fs(self.R))]
+        return [Outcome(ret=fs(self.clock(E)))]
+
+    def _work(self, E, x, args):
+        return [Outcome(ret=TOP)]
+
+    prim_pqstart = prim_todo_init = prim_comm_init = prim_job_init = prim_del_init = prim_pass_init = prim_cleanup_init = _work
+    prim_todo_do = prim_pass_do = prim_cleanup_do = prim_del_do = prim_comm_do = _work
 
     def _selprep(self, E, x, args):
         wk = None
@@ -1391,10 +1403,13 @@ class TimeoutHooks(MainHooks):
             if x.callee == 'pass_selprep':
                 raise AnalysisBroken('main: pass_selprep() is not handed the wake-up time')
             return [Outcome(ret=TOP)]
+        now_ = self.clock(E)
+        self.site('main:recent-is-the-current-time-when-the-timeout-is-computed', x, g1(E, 'G:recent') == now_,
+                  'the clock reads %d and the wake-up time is compared with recent=%s: after select() was interrupted by a signal the daemon sleeps too long by the time it had already slept' % (now_, g1(E, 'G:recent')), E)
         w0 = g1(E, wk)
-        self.site('main:wakeup-starts-at-recent+SLEEP_FOREVER', x, w0 == self.R + self.forever,
-                  'the wake-up time handed to the selprep functions starts at %s (documented recent + SLEEP_FOREVER = %d)' % (w0, self.R + self.forever), E)
-        return [Outcome(ret=TOP, sets={wk: fs(self.R + d), '$wk': fs(self.R + d)}) for d in self.DELTAS]
+        self.site('main:wakeup-starts-at-recent+SLEEP_FOREVER', x, w0 == g1(E, 'G:recent', 0) + self.forever,
+                  'the wake-up time handed to the selprep functions starts at %s (documented recent + SLEEP_FOREVER = %s)' % (w0, g1(E, 'G:recent', 0) + self.forever), E)
+        return [Outcome(ret=TOP, sets={wk: fs(now_ + d), '$wk': fs(now_ + d)}) for d in self.DELTAS]
 
     prim_pass_selprep = prim_todo_selprep = prim_cleanup_selprep = prim_comm_selprep = prim_del_selprep = _selprep
 
@@ -1402,14 +1417,23 @@ class TimeoutHooks(MainHooks):
         self.count('select')
         tvp = g1v(args[4]) if len(args) > 4 else None
         w = g1(E, '$wk')
+        now_ = self.clock(E)
         sec = g1(E, tvp[1] + '.tv_sec') if isinstance(tvp, tuple) and tvp[0] == '&' else None
         if w is not None:
-            if w <= self.R:
-                self.site('main:zero-timeout-iff-wakeup<=recent', x, sec == 0, 'wakeup=%d recent=%d: select() timeout is %s s (documented 0: work is due now)' % (w, self.R, sec), E)
+            if w <= now_:
+                self.site('main:zero-timeout-iff-wakeup<=recent', x, sec == 0, 'wakeup=%d now=%d: select() timeout is %s s (documented 0: work is due now)' % (w, now_, sec), E)
             else:
-                self.site('main:zero-timeout-iff-wakeup<=recent', x, sec != 0, 'wakeup=%d recent=%d: select() timeout is 0 although nothing is due (busy loop)' % (w, self.R), E)
-                self.site('main:positive-timeout-covers-the-distance-to-wakeup', x, isinstance(sec, int) and sec >= w - self.R and sec >= 1 and sec <= w - self.R + 60,
-                          'wakeup=%d recent=%d: select() timeout is %s s (documented wakeup - recent + SLEEP_FUZZ)' % (w, self.R, sec), E)
+                self.site('main:zero-timeout-iff-wakeup<=recent', x, sec != 0, 'wakeup=%d now=%d: select() timeout is 0 although nothing is due (busy loop)' % (w, now_), E)
+                self.site('main:positive-timeout-covers-the-distance-to-wakeup', x, isinstance(sec, int) and sec >= w - now_ and sec >= 1 and sec <= w - now_ + 60,
+                          'wakeup=%d now=%d: select() timeout is %s s (documented wakeup - now + SLEEP_FUZZ)' % (w, now_, sec), E)
+        if g1(E, '$round', 0) >= 1:
+            return 'noreturn'
+        st = {'$round': fs(1), '$clock': fs(now_ + self.STEP), '$term': TOP, '$canexit': TOP}
+        hv = ('G:flagrunasap', 'G:flagreadasap', 'G:flagexitasap')
+        return [Outcome(ret=fs(-1), havoc=hv, sets=dict(st, **{'$errno': fs(4)}), log='select() interrupted by a signal after %d s' % self.STEP),
+                Outcome(ret=fs(1), havoc=hv, sets=st, log='select() returns after %d s' % self.STEP)]
+
+    def prim_pqfinish(self, E, x, args):
         return 'noreturn'
 
 
